@@ -1,8 +1,8 @@
 #!/bin/bash
 # runs every seeded change against the quick check of its property (plus closely related ones)
-declare -A REL=( [C01]="C01" [C02]="C02 C13" [C03]="C03 C11" [C04]="C04" [C05]="C05" [C06]="C06" [C07]="C07" [C08]="C08 C18" [C09]="C09" [C09x]="C09" [C10]="C10" [C11]="C11" [C12]="C12" [C13]="C13" [C14]="C14" [C15]="C15" [C16]="C16" [C17]="C17" [C18]="C18 C08" [C19]="C19" [C20]="C20" [C01b]="C01" [C02b]="C02" [C03b]="C03 C12" [C04b]="C04" [C05b]="C05" [C06b]="C06 C16" [C07b]="C07" [C08b]="C08 C07" [C09b]="C09 C07" [C10b]="C10" [C11b]="C11 C05" [C12b]="C12" [C13b]="C13" [C14b]="C14" [C15b]="C15" [C16b]="C16" [C17b]="C17" [C18b]="C18 C08" [C19b]="C19 C09" [C20b]="C20" )
+declare -A REL=( [C01]="C01" [C02]="C02 C13" [C03]="C03 C11" [C04]="C04" [C05]="C05" [C06]="C06" [C07]="C07" [C08]="C08 C18" [C09]="C09" [C09x]="C09" [C10]="C10" [C11]="C11" [C12]="C12" [C13]="C13" [C14]="C14" [C15]="C15" [C16]="C16" [C17]="C17" [C18]="C18 C08" [C19]="C19" [C20]="C20" [C01b]="C01" [C02b]="C02" [C03b]="C03 C12" [C04b]="C04" [C05b]="C05" [C06b]="C06 C16" [C07b]="C07" [C08b]="C08 C07" [C09b]="C09 C07" [C10b]="C10" [C11b]="C11 C05" [C12b]="C12" [C13b]="C13" [C14b]="C14" [C15b]="C15" [C16b]="C16" [C17b]="C17" [C18b]="C18 C08" [C19b]="C19 C09" [C20b]="C20" [C01c]="C01 C02" [C02c]="C02 C01" [C03c]="C03" [C04c]="C04 C03" [C05c]="C05 C15" [C06c]="C06 C05 C11" [C07c]="C07" [C08c]="C08" [C09c]="C09" [C10c]="C10" [C11c]="C11" [C12c]="C12" [C13c]="C13" [C14c]="C14" [C15c]="C15" [C16c]="C16" [C17c]="C17" [C18c]="C18" [C19c]="C19" [C20c]="C20" )
 OUT=${MATRIX_OUT:-/verif/seeded/RESULTS.txt}; : > $OUT
-for id in ${1:-C01 C02 C03 C04 C05 C06 C07 C08 C09 C09x C10 C11 C12 C13 C14 C15 C16 C17 C18 C19 C20 C01b C02b C03b C04b C05b C06b C07b C08b C09b C10b C11b C12b C13b C14b C15b C16b C17b C18b C19b C20b}; do
+for id in ${1:-C01 C02 C03 C04 C05 C06 C07 C08 C09 C09x C10 C11 C12 C13 C14 C15 C16 C17 C18 C19 C20 C01b C02b C03b C04b C05b C06b C07b C08b C09b C10b C11b C12b C13b C14b C15b C16b C17b C18b C19b C20b C01c C02c C03c C04c C05c C06c C07c C08c C09c C10c C11c C12c C13c C14c C15c C16c C17c C18c C19c C20c}; do
   /verif/tools/try_seeded.sh $id ${REL[$id]} >> $OUT 2>&1
 done
 echo DONE >> $OUT
